@@ -28,6 +28,7 @@ use super::constant::MIN_BLOCK_SIZE;
 use super::error::verify_range;
 use super::error::verify_true;
 use super::error::SourceError;
+use super::error::SourceErrorReason;
 use super::error::VerifyError;
 
 /// Traits for buffer-like objects that can be filled by [`Source`].
@@ -275,8 +276,21 @@ impl FrameBuf {
     }
 }
 
+impl FrameBuf {
+    /// Checks that `sample_count` interleaved samples form whole inter-channel
+    /// samples and fit in this buffer.
+    fn verify_fill_size(&self, sample_count: usize) -> Result<(), SourceError> {
+        let channels = self.channels();
+        if sample_count % channels != 0 || sample_count / channels > self.size() {
+            return Err(SourceError::by_reason(SourceErrorReason::InvalidBuffer));
+        }
+        Ok(())
+    }
+}
+
 impl Fill for FrameBuf {
     fn fill_interleaved(&mut self, interleaved: &[i32]) -> Result<(), SourceError> {
+        self.verify_fill_size(interleaved.len())?;
         let stride = self.size();
         let channels = self.channels();
         deinterleave(interleaved, channels, stride, &mut self.samples);
@@ -286,7 +300,11 @@ impl Fill for FrameBuf {
 
     #[inline]
     fn fill_le_bytes(&mut self, bytes: &[u8], bytes_per_sample: usize) -> Result<(), SourceError> {
+        if !(1..=4).contains(&bytes_per_sample) || bytes.len() % bytes_per_sample != 0 {
+            return Err(SourceError::by_reason(SourceErrorReason::InvalidBuffer));
+        }
         let sample_count = bytes.len() / bytes_per_sample;
+        self.verify_fill_size(sample_count)?;
         self.readbuf.resize(sample_count, 0);
         le_bytes_to_i32s(bytes, &mut self.readbuf, bytes_per_sample);
 
@@ -408,6 +426,9 @@ impl Fill for Context {
         if interleaved.is_empty() {
             return Ok(());
         }
+        if interleaved.len() % self.channels != 0 {
+            return Err(SourceError::by_reason(SourceErrorReason::InvalidBuffer));
+        }
         for v in interleaved {
             self.md5.update(&v.to_le_bytes()[0..self.bytes_per_sample]);
         }
@@ -420,6 +441,13 @@ impl Fill for Context {
     fn fill_le_bytes(&mut self, bytes: &[u8], bytes_per_sample: usize) -> Result<(), SourceError> {
         if bytes.is_empty() {
             return Ok(());
+        }
+        // the digest is defined over samples of the declared width; a buffer in a
+        // different packing would silently corrupt it.
+        if bytes_per_sample != self.bytes_per_sample
+            || bytes.len() % (self.channels * bytes_per_sample) != 0
+        {
+            return Err(SourceError::by_reason(SourceErrorReason::InvalidBuffer));
         }
         self.md5.update(bytes);
         self.sample_count += bytes.len() / self.channels / bytes_per_sample;
